@@ -284,6 +284,28 @@ func runC02(c *Ctx) {
 		}
 		// Data packet header carries the block's table name
 		okTN := false
+		// built in encodeBlock itself ...
+		for _, b := range eb.Blocks {
+			for _, in := range b.Instrs {
+				st, ok := in.(*ssa.Store)
+				if !ok {
+					continue
+				}
+				fa, ok := st.Addr.(*ssa.FieldAddr)
+				if !ok || !core.IsNamed(fa.X.Type(), core.PkgProto, "ClientData") || fieldNameOnly(fa.X.Type(), fa.Field) != "TableName" {
+					continue
+				}
+				if core.DependsOn(st.Val, func(v ssa.Value) bool {
+					if pr, ok := v.(*ssa.Parameter); ok {
+						return pr.Name() == "tableName"
+					}
+					return isParamCell(eb, v, "tableName")
+				}, false) {
+					okTN = true
+				}
+			}
+		}
+		// ... or inside the closure handed to the writer
 		for _, a := range eb.AnonFuncs {
 			for _, b := range a.Blocks {
 				for _, in := range b.Instrs {
